@@ -107,6 +107,62 @@ def name_code(s):
     return UNKNOWN_NAME
 
 
+# forms in which a callback may hand back its result (lesson 18: one-shot iterables).  The naming callbacks' results
+# only ever go through list.extend, so any iterable is legal -- a FRESH object per call; the build callbacks' results
+# are measured with len() and indexed, so they are tuples or lists (of tuples or lists).
+NFORMS = ["tuple", "list", "iter", "gen", "map", "repeat"]
+BFORMS = ["asis", "tuple", "list", "list-of-lists"]
+
+
+def make_namer(t, form):
+    """naming callback returning the names `t` (tuple of str) in the given form, a new object on every call"""
+    t = tuple(t)
+    if form == "list":
+        return lambda: list(t)
+    if form == "iter":
+        return lambda: iter(t)
+    if form == "gen":
+        def g():
+            for x in t:
+                yield x
+        return g
+    if form == "map":
+        return lambda: map(str, t)
+    if form == "repeat":
+        if t and len(set(t)) == 1:
+            return lambda: itertools.repeat(t[0], len(t))
+        return lambda: itertools.chain(t[:1], t[1:])
+    return lambda: t
+
+
+def reform_build(r, form):
+    """the build callback's result `r` converted to the requested container types (same edges, same order)"""
+    if form == "asis" or not isinstance(r, (tuple, list)):
+        return r
+    bare = len(r) == 2 and all(isinstance(a, int) for a in r)
+    if bare:
+        return list(r) if form == "list-of-lists" else r
+    if form == "tuple":
+        return tuple(tuple(e) if isinstance(e, list) else e for e in r)
+    if form == "list":
+        return list(r)
+    return [list(e) if isinstance(e, tuple) else e for e in r]
+
+
+def add_forms(case, rng=None, k=None):
+    """give the case callback-result forms: drawn from rng, or the k-th combination of a fixed rotation"""
+    n_cb = max(1, len(case.get("codes", [])))
+    # edges as LISTS only for the custom generator (the network conversion keys dicts by the edge entries)
+    bforms = BFORMS if case.get("tag") == MOTIFS else BFORMS[:3]
+    if rng is not None:
+        case["nforms"] = [rng.choice(NFORMS) for _ in range(n_cb)]
+        case["bform"] = rng.choice(bforms)
+    else:
+        case["nforms"] = [NFORMS[(k + j) % len(NFORMS)] for j in range(n_cb)]
+        case["bform"] = bforms[(k // len(NFORMS)) % len(bforms)]
+    return case
+
+
 class Forbidden(oracles.OracleProtocol):
     pass
 
@@ -195,6 +251,9 @@ class Runner:
         self.last_out = None
         tag = case["tag"]
 
+        bform = case.get("bform", "asis")
+        nforms = case.get("nforms") or ["tuple"]
+
         def wrap(j, code):
             fn = py_builder(code)
 
@@ -203,7 +262,7 @@ class Runner:
                 if type(vs) is not list or any(type(v) is not int for v in vs):
                     self.bad_arg_types = "%s of %s" % (type(vs).__name__, sorted({type(v).__name__ for v in vs}))
                 self.log.append(entry)
-                r = fn(vs)
+                r = reform_build(fn(vs), bform)
                 entry[2] = shape_of(r)
                 return r
             return cb
@@ -216,7 +275,9 @@ class Runner:
                 if code == BARE:
                     names.append((lambda s: (lambda: s))(name_str(nms[0]) if nms else "n0"))
                 else:
-                    names.append((lambda t: (lambda: t))(tuple(name_str(c) for c in nms)))
+                    # tuple / list / iterator / generator / map / repeat, a fresh object per call (a callback hoisted
+                    # out of the per-motif loop exhausts the one-shot forms after the first motif: C02-r3-3)
+                    names.append(make_namer(tuple(name_str(c) for c in nms), nforms[j % len(nforms)]))
         else:
             names = [name_str(nms[0]) if nms else "n0" for nms in case["names"]]
         self.names = names
@@ -690,8 +751,11 @@ def big_case(rng, tag):
         p = list(range(sum(r[k] for r in jds)))
         rng.shuffle(p)
         pis.append(p)
-    return {"tag": tag, "via": rng.choice(VIAS), "jds": jds, "sizes": sizes, "codes": codes, "names": names,
-            "mis": mis if tag == MOTIFS else [], "pis": pis, "decoy": rng.random() < 0.3}
+    c = {"tag": tag, "via": rng.choice(VIAS), "jds": jds, "sizes": sizes, "codes": codes, "names": names,
+         "mis": mis if tag == MOTIFS else [], "pis": pis, "decoy": rng.random() < 0.3}
+    if rng.random() < 0.6:
+        add_forms(c, rng)
+    return c
 
 
 # ------------------------------------------------------------------ generators
@@ -799,6 +863,8 @@ def random_valid_case(rng, tag, maxN=12, maxT=4, maxsize=5, maxdeg=3):
         pis.append(p)
     case = {"tag": tag, "via": rng.choice(VIAS), "jds": jds, "sizes": sizes, "codes": codes, "names": names,
             "mis": mis if tag == MOTIFS else [], "pis": pis}
+    if rng.random() < 0.6:
+        add_forms(case, rng)
     return case
 
 
@@ -975,6 +1041,9 @@ def shrink_case(case):
 def describe_case(case, impl):
     d = {"generator": TAGNAME[case["tag"]], "via": case.get("via"), "jds": case["jds"][:8], "sizes": case["sizes"],
          "builders": [BUILDER_NAMES[c] for c in case["codes"]], "motif_indices": case.get("mis")}
+    if "nforms" in case:
+        d["naming_callbacks_return"] = case["nforms"]
+        d["build_callbacks_return"] = case.get("bform")
     if "steps" in case:
         d["history_steps_on_one_object"] = len(case["steps"])
     if isinstance(impl, dict) and "steps" in impl:
@@ -1004,4 +1073,10 @@ def histo(cases):
         for code in c["codes"]:
             k = "builder_" + BUILDER_NAMES[code]
             h[k] = h.get(k, 0) + 1
+        if c["tag"] == MOTIFS:
+            for f in set(c.get("nforms", ["tuple"])):
+                k = "names_as_" + f
+                h[k] = h.get(k, 0) + 1
+        k = "build_result_" + c.get("bform", "asis")
+        h[k] = h.get(k, 0) + 1
     return h
